@@ -12,6 +12,12 @@ R18c  the discard step empties the fixes of *every* lint error of every file who
       *unfiltered* TMP/PRS count is non-zero (objects and serialised records).
 R18d  ``persist_tree`` produces and writes fixed text only under its own fixable
       count test; the pass-through ``persist_changes`` wrappers only forward.
+
+Spellings read as the same facts (QUIET sweep): ``bool(x)`` for ``x``; a sink inside a conditional
+expression / behind a short-circuit operand is judged with that test known; in the discard step a
+per-file count read into a local, ``n > 0`` / ``n != 0`` for ``n``, early ``continue``s, and a loop
+over ``[v for v in f.violations if isinstance(v, SQLLintError)]``; the map key and the rollback
+result tuple through a local.
 """
 
 from __future__ import annotations
@@ -19,7 +25,8 @@ from __future__ import annotations
 import ast
 
 from ..cfg import Branch, cfg_of, origins
-from ..counts import Counts, UNF, root_name
+from ..counts import Counts, UNF, root_name, zero_test
+from ..idioms import conditions_at, expanded
 from ..gates import DISCARD, GateAtoms, callers_of, discard_summaries, make_events
 from ..index import AnalysisError, FuncNode, calls_in, enclosing_class, enclosing_function, last_attr, norm, short, walk_local
 from ..pathcond import And, Not, Or, PathFacts, Var, show
@@ -44,15 +51,48 @@ def _goal(root: str, self_gating: bool):
     return Or(Var("FEU"), Var(f"ZU:{root}"), tail)
 
 
-def _check_site(chk, counts, summaries, func, stmt_node, root, self_gating, sink_desc, depth=0):
+class _Atoms(GateAtoms):
+    """``bool(x)`` is the same test as ``x``."""
+
+    def __call__(self, e, stmt):
+        if isinstance(e, ast.Call) and isinstance(e.func, ast.Name) and e.func.id == "bool" and len(e.args) == 1 and not e.keywords:
+            return self(e.args[0], stmt)
+        return super().__call__(e, stmt)
+
+
+def _inline_facts(pf, node, stmt):
+    """What is known when ``node`` is evaluated *inside* its statement: the test of an enclosing
+    conditional expression (``sink() if test else other``) and the operands that short-circuit
+    before it (``test and sink()`` / ``test or sink()``)."""
+    out = []
+    p = node
+    while p is not None and p is not stmt:
+        par = getattr(p, "_parent", None)
+        if isinstance(par, ast.IfExp) and p is not par.test:
+            f, _ = pf.translate(par.test, stmt)
+            out.append(f if p is par.body else Not(f))
+        elif isinstance(par, ast.BoolOp):
+            is_and = isinstance(par.op, ast.And)
+            for v in par.values:
+                if v is p:
+                    break
+                f, _ = pf.translate(v, stmt)
+                out.append(f if is_and else Not(f))
+        elif isinstance(par, (ast.Lambda, ast.ListComp, ast.SetComp, ast.DictComp, ast.GeneratorExp)):
+            return []  # evaluated later / repeatedly: nothing is claimed
+        p = par
+    return out
+
+
+def _check_site(chk, counts, summaries, func, stmt_node, root, self_gating, sink_desc, depth=0, node=None):
     """Prove the goal at ``stmt_node`` of ``func``; lift to callers when the
     receiver is a parameter and the goal is not established locally."""
     cfg = cfg_of(func)
-    atoms = GateAtoms(counts, func)
+    atoms = _Atoms(counts, func)
     pf = PathFacts(cfg, atoms, make_events(func, counts, summaries))
     root = counts._canon_root(cfg, root, stmt_node)
     goal = _goal(root, self_gating)
-    ok, cex = pf.holds_at(stmt_node, goal)
+    ok, cex = pf.holds_at(stmt_node, goal, _inline_facts(pf, node, stmt_node) if node is not None else ())
     if ok:
         return True, None
     params = [a.arg for a in func.args.args]
@@ -74,7 +114,7 @@ def _check_site(chk, counts, summaries, func, stmt_node, root, self_gating, sink
                     all_ok, worst = False, (cf, call, None)
                     continue
                 ccfg = cfg_of(cf)
-                ok2, cex2 = _check_site(chk, counts, summaries, cf, ccfg.stmt_of(call), r2, self_gating, sink_desc, depth + 1)
+                ok2, cex2 = _check_site(chk, counts, summaries, cf, ccfg.stmt_of(call), r2, self_gating, sink_desc, depth + 1, node=call)
                 if not ok2:
                     all_ok, worst = False, cex2 or (cf, call, None)
             if all_ok:
@@ -88,12 +128,62 @@ def _check_site(chk, counts, summaries, func, stmt_node, root, self_gating, sink
     return False, (func, stmt_node, info or ("facts on the failing path: " + (" and ".join(show(f) for f in cex) if cex else "none")))
 
 
+def _r18e(chk, repo) -> None:
+    """The counts that gate fixing see only the errors that reach the rendered file."""
+    from ..flowutil import must_pass
+
+    f = repo.fn(LINTER, "Linter.render_string")
+    cfg = cfg_of(f)
+    loops = [l for l in walk_local(f) if isinstance(l, ast.For) and isinstance(l.iter, ast.Call) and last_attr(l.iter) == "process_with_variants"]
+    chk.count("R18e.variant_loops", len(loops))
+    chk.floor("R18e.variant_loops", 1)
+    for l in loops:
+        if not (isinstance(l.target, ast.Tuple) and len(l.target.elts) == 2 and all(isinstance(x, ast.Name) for x in l.target.elts)):
+            raise AnalysisError("R18e: the loop over process_with_variants no longer unpacks (variant, errors); re-confirm the anchor by hand")
+        err = l.target.elts[1].id
+        acc, lists = [], set()
+        for st in [x for b in l.body for x in ast.walk(b)]:
+            if isinstance(st, ast.AugAssign) and isinstance(st.op, ast.Add) and isinstance(st.target, ast.Name) and isinstance(st.value, ast.Name) and st.value.id == err:
+                acc.append(st); lists.add(st.target.id)
+            elif isinstance(st, ast.Expr) and isinstance(st.value, ast.Call) and last_attr(st.value) == "extend" and isinstance(st.value.func, ast.Attribute) and isinstance(st.value.func.value, ast.Name) \
+                    and st.value.args and isinstance(st.value.args[0], ast.Name) and st.value.args[0].id == err:
+                acc.append(st); lists.add(st.value.func.value.id)
+            elif isinstance(st, ast.Assign) and len(st.targets) == 1 and isinstance(st.targets[0], ast.Name) and isinstance(st.value, ast.BinOp) and isinstance(st.value.op, ast.Add) \
+                    and isinstance(st.value.left, ast.Name) and st.value.left.id == st.targets[0].id and isinstance(st.value.right, ast.Name) and st.value.right.id == err:
+                acc.append(st); lists.add(st.targets[0].id)
+        if not chk.require(bool(acc), "R18e", l, f"the errors yielded next to each variant (`{err}`) are never added to a list: templating errors vanish, and every fix gate sees a clean file",
+                           detail="render_string: yielded templating errors are accumulated"):
+            continue
+        first = l.body[0]
+        leaves = [b for b in walk_local(f) if isinstance(b, ast.Break) and any(b is x for s_ in l.body for x in ast.walk(s_))]
+        inner = [x for s_ in l.body for x in ast.walk(s_) if isinstance(x, (ast.For, ast.While))]
+        leaves = [b for b in leaves if not any(b is y for i_ in inner for y in ast.walk(i_))]
+        for goal, what in [(b, f"the `break` at line {b.lineno}") for b in leaves] + [(l, "the next iteration")]:
+            chk.require(
+                must_pass(cfg, first, goal, acc), "R18e", goal if goal is not l else first,
+                f"a path through the body of the loop over process_with_variants reaches {what} without adding `{err}` to the error list: the templating errors of that "
+                "variant are dropped, the file looks clean to every fix gate and is modified although it has templating errors",
+                detail="render_string: yielded templating errors are accumulated on the path to " + ("a break" if goal is not l else "the next iteration"),
+            )
+        # the accumulated list is what the rendered file carries
+        ok = False
+        for r in [r for r in walk_local(f) if isinstance(r, ast.Return) and r.value is not None]:
+            vs = [o.expr for o in origins(cfg, r.value, r)] if isinstance(r.value, ast.Name) else [r.value]
+            for v in vs:
+                if isinstance(v, ast.Call) and last_attr(v) == "RenderedFile":
+                    args = list(v.args) + [k.value for k in v.keywords]
+                    ok = ok or any(isinstance(a, ast.Name) and a.id in lists for a in args)
+        chk.require(ok, "R18e", l, "the list the yielded templating errors are added to is not handed to the RenderedFile", detail="render_string: RenderedFile carries the accumulated list")
+
+
 def run(chk) -> None:
     repo = chk.repo
     chk.rule("R18a", "every fix sink is only reached when fix_even_unparsable is set, or the unfiltered TMP/PRS count is zero, or the discard step ran first and the sink is conditioned on a fixable count")
     chk.rule("R18b", "on loop-limit exhaustion the tree saved before the first pass is returned and all initial lint errors lose their fixes")
     chk.rule("R18c", "the discard step empties fixes for every lint error of every file with a non-zero unfiltered TMP/PRS count")
     chk.rule("R18d", "persist_tree self-gates on a fixable count; persist_changes wrappers only forward")
+    chk.rule("R18e", "every templating error the templater yields next to a variant is kept: in render_string's loop over process_with_variants the yielded error list is accumulated on every path through the body, also the one that leaves the loop, and that list is what the RenderedFile carries")
+    _r18e(chk, repo)
     counts = Counts(repo)
     summaries = discard_summaries(repo, counts)
     chk.count("R18a.discard_helpers", len(summaries))
@@ -118,7 +208,7 @@ def run(chk) -> None:
                     chk.fail("R18a", c, "fix sink on a receiver that cannot be traced to a variable", detail=f"sink {meth} untraceable receiver")
                     continue
                 cfg = cfg_of(f)
-                ok, why = _check_site(chk, counts, summaries, f, cfg.stmt_of(c), root, meth in SELF_GATING, meth)
+                ok, why = _check_site(chk, counts, summaries, f, cfg.stmt_of(c), root, meth in SELF_GATING, meth, node=c)
                 detail = f"sink {meth}() on {root}"
                 if ok:
                     chk.ok("R18a", f"{m.relpath}::{q}", detail)
@@ -177,8 +267,8 @@ def _r18c(chk, repo, counts) -> None:
     d = repo.fn(LDIR, f"LintedDir.{DISCARD}")
     cfg = cfg_of(d)
     # kinds of the per-file map and the counter
-    unf_maps = {a for a, infos in counts.map_attrs.items() if infos and all(i.kind == UNF and i.is_tmp_prs() for i in infos)}
-    unf_attrs = {a for a, infos in counts.attr_kinds.items() if infos and all(i.kind == UNF and i.is_tmp_prs() for i in infos)}
+    unf_maps = {a for a, infos in counts.map_attrs.items() if infos and all(i.kind == UNF and not i.warn_filtered and i.is_tmp_prs() for i in infos)}
+    unf_attrs = {a for a, infos in counts.attr_kinds.items() if infos and all(i.kind == UNF and not i.warn_filtered and i.is_tmp_prs() for i in infos)}
     chk.count("R18c.unfiltered_maps", len(unf_maps))
     chk.count("R18c.unfiltered_counters", len(unf_attrs))
     if not chk.require(
@@ -190,6 +280,11 @@ def _r18c(chk, repo, counts) -> None:
         return
 
     def cond_class(e: ast.expr, pol: bool, loopvars) -> str:
+        # a count read into a local reads as the count; ``n > 0`` / ``n != 0`` true and ``n == 0`` false as ``n`` true
+        e = expanded(cfg, e, cfg.stmt_of(e)) if cfg.stmt_of(e) is not None else e
+        zt = zero_test(e)
+        if zt is not None:
+            e, pol = zt[0], (not pol if zt[1] else pol)
         t = norm(e)
         if not pol:
             return "other"
@@ -213,7 +308,7 @@ def _r18c(chk, repo, counts) -> None:
         is_rec = isinstance(t, ast.Subscript) and isinstance(t.slice, ast.Constant) and t.slice.value == "fixes"
         if not (is_obj or is_rec):
             continue
-        conds = cfg.conditions(n)
+        conds = conditions_at(cfg, n)
         classes = [cond_class(e, pol, None) for e, pol in conds]
         allowed = {"unfiltered-map", "unfiltered-counter", "is-lint-error"} if is_obj else {"unfiltered-map", "unfiltered-counter", "has-fixes"}
         bad = [norm(e) for (e, pol), c in zip(conds, classes) if c not in allowed]
@@ -223,7 +318,7 @@ def _r18c(chk, repo, counts) -> None:
         p = n
         while p is not None and p is not d:
             if isinstance(p, ast.For):
-                loops.append(norm(p.iter))
+                loops.append(norm(_iterated(cfg, p)))
             p = getattr(p, "_parent", None)
         want_iter = "self.files" if is_obj else "self._records"
         chk.require(empties, "R18c", n, "discard step does not empty the fixes", detail=("object" if is_obj else "record") + " fixes emptied")
@@ -244,7 +339,26 @@ def _r18c(chk, repo, counts) -> None:
     for n in walk_local(add):
         if isinstance(n, ast.Assign) and isinstance(n.targets[0], ast.Subscript) and isinstance(n.targets[0].value, ast.Attribute) and n.targets[0].value.attr in unf_maps:
             chk.require(not acfg.conditions(n), "R18c", n, "per-file unfiltered TMP/PRS map is not filled unconditionally", detail="map filled unconditionally")
-            chk.require(norm(n.targets[0].slice) == "file.path" or norm(n.targets[0].slice).endswith(".path"), "R18c", n, "per-file map keyed by something other than the file path", detail="map keyed by path")
+            key = norm(expanded(acfg, n.targets[0].slice, n))
+            chk.require(key == "file.path" or key.endswith(".path"), "R18c", n, "per-file map keyed by something other than the file path", detail="map keyed by path")
+
+
+def _iterated(cfg, loop: ast.For) -> ast.expr:
+    """The collection a ``for`` really walks: ``for v in [x for x in C if isinstance(x, SQLLintError)]``
+    (the comprehension in place or held in a local) visits the lint errors of ``C`` -- all that the
+    discard has to clear -- so it reads as a loop over ``C``."""
+    it = loop.iter
+    if isinstance(it, ast.Name):
+        os_ = origins(cfg, it, loop)
+        if len(os_) == 1 and os_[0].kind == "expr" and not os_[0].path and isinstance(os_[0].expr, (ast.ListComp, ast.GeneratorExp)):
+            it = os_[0].expr
+    if isinstance(it, (ast.ListComp, ast.GeneratorExp)) and len(it.generators) == 1:
+        g = it.generators[0]
+        if isinstance(g.target, ast.Name) and isinstance(it.elt, ast.Name) and it.elt.id == g.target.id and all(
+            isinstance(c, ast.Call) and last_attr(c) == "isinstance" and len(c.args) == 2 and norm(c.args[0]) == g.target.id and norm(c.args[1]) == "SQLLintError" for c in g.ifs
+        ):
+            return g.iter
+    return loop.iter
 
 
 def _r18b(chk, repo) -> None:
@@ -262,13 +376,18 @@ def _r18b(chk, repo) -> None:
         encl = [lp for lp in loops if _inside(r, lp)]
         if not encl:
             continue
-        elts = r.value.elts if isinstance(r.value, ast.Tuple) else [r.value]
+        val, val_at = r.value, r
+        if isinstance(val, ast.Name):  # the result tuple held in a local
+            vo = origins(cfg, val, r)
+            if len(vo) == 1 and vo[0].kind == "expr" and not vo[0].path and isinstance(vo[0].expr, ast.Tuple) and vo[0].stmt is not None:
+                val, val_at = vo[0].expr, vo[0].stmt
+        elts = val.elts if isinstance(val, ast.Tuple) else [val]
         t0 = elts[0] if elts else None
         if not isinstance(t0, ast.Name):
             continue
-        os_ = origins(cfg, t0, r)
+        os_ = origins(cfg, t0, val_at)
         from_param = bool(os_) and all(o.kind == "param" and getattr(o.expr, "arg", "") == tree_param for o in os_)
-        ds = cfg.reaching().defs_at(r, t0.id)
+        ds = cfg.reaching().defs_at(val_at, t0.id)
         rebound_in_loop = [d for d in ds if d.stmt is not None and any(_inside(d.stmt, lp) for lp in loops)]
         in_else = any(_inside_stmts(r, lp.orelse) for lp in encl if lp.orelse)
         if not in_else and not (from_param and not rebound_in_loop):
@@ -354,6 +473,31 @@ CLI = "src/sqlfluff/cli/commands.py"
 API = "src/sqlfluff/api/simple.py"
 
 VARIANTS = [
+    Variant(
+        "variant-limit-break-before-errors-are-kept", LINTER,
+        "                templater_violations += templater_errs\n                if len(templated_variants) >= variant_limit:\n                    # Stop if we hit the limit.\n                    break\n",
+        "                if len(templated_variants) >= variant_limit:\n                    # Stop if we hit the limit.\n                    break\n                templater_violations += templater_errs\n",
+        "R18e", "render_string", "seeded C18-3 (same effect): render_variant_limit = 1 drops every non-fatal templating error",
+    ),
+    Variant(
+        "errors-kept-only-with-a-variant", LINTER,
+        "                if variant:\n                    templated_variants.append(variant)\n",
+        "                if not variant:\n                    continue\n                templated_variants.append(variant)\n",
+        "R18e", "render_string", "errors yielded without a variant are skipped",
+    ),
+    Variant(
+        "quiet-errors-extended-before-the-variant", LINTER,
+        "                if variant:\n                    templated_variants.append(variant)\n",
+        "                templater_violations.extend(templater_errs)\n                templater_errs = []\n                if variant:\n                    templated_variants.append(variant)\n",
+        "QUIET", None, "R18e: errors added first (extend), the later += adds an empty list",
+    ),
+    Variant(
+        "unfiltered-count-skips-warning-level-errors", LDIR,
+        "            filter_ignore=False,\n            filter_warning=False,\n        )\n        self.num_unfiltered_tmp_prs_errors += _unfiltered_tmp_prs_errors\n",
+        "            filter_ignore=False,\n        )\n        self.num_unfiltered_tmp_prs_errors += _unfiltered_tmp_prs_errors\n",
+        "R18c", None, "seeded C18-4: `warnings = PRS` hides the parse error from the gate count",
+    ),
+
     # behaviour-preserving refactors of the gates: must stay quiet
     Variant(
         "quiet-api-gate-as-early-return", API,
@@ -378,6 +522,153 @@ VARIANTS = [
         "    if result.num_violations(types=SQLLintError, fixable=True) > 0:\n        stdout = result.paths[0].files[0].fix_string()[0]\n",
         "    n_fixable = result.num_violations(types=SQLLintError, fixable=True)\n    if n_fixable > 0:\n        the_file = result.paths[0].files[0]\n        stdout = the_file.fix_string()[0]\n",
         "QUIET", None, "fixable count and the file held in locals",
+    ),
+    # behaviour-preserving refactors: must stay quiet
+    Variant(
+        'quiet-api-early-return-instead-of-flag', API,
+        "    should_fix = True\n    if not fix_even_unparsable:\n        # If fix_even_unparsable wasn't set, check for templating or parse\n        # errors and suppress fixing if there were any. NOTE: As on the\n        # command line, this includes errors which have been suppressed\n        # (e.g. by `noqa`), because we can't guarantee the fixes are valid.\n        total_errors, _ = result.count_tmp_prs_errors()\n        if total_errors > 0:\n            should_fix = False\n    # NOTE: As for stdin on the command line, only ask for the fixed string if\n    # there is something to fix. A file which was skipped (e.g. for being over\n    # the configured size limit) has no tree or templated file to fix.\n    if should_fix and result.num_violations(types=SQLLintError, fixable=True) > 0:\n        sql = result.paths[0].files[0].fix_string()[0]\n    return sql\n",
+        '    if not fix_even_unparsable:\n        total_errors, _ = result.count_tmp_prs_errors()\n        if total_errors > 0:\n            return sql\n    if result.num_violations(types=SQLLintError, fixable=True) > 0:\n        sql = result.paths[0].files[0].fix_string()[0]\n    return sql\n',
+        "QUIET", None, 'the should_fix flag replaced by an early return',
+    ),
+    Variant(
+        'quiet-api-flag-as-one-expression', API,
+        "    should_fix = True\n    if not fix_even_unparsable:\n        # If fix_even_unparsable wasn't set, check for templating or parse\n        # errors and suppress fixing if there were any. NOTE: As on the\n        # command line, this includes errors which have been suppressed\n        # (e.g. by `noqa`), because we can't guarantee the fixes are valid.\n        total_errors, _ = result.count_tmp_prs_errors()\n        if total_errors > 0:\n            should_fix = False\n    # NOTE: As for stdin on the command line, only ask for the fixed string if\n    # there is something to fix. A file which was skipped (e.g. for being over\n    # the configured size limit) has no tree or templated file to fix.\n    if should_fix and result.num_violations(types=SQLLintError, fixable=True) > 0:\n        sql = result.paths[0].files[0].fix_string()[0]\n    return sql\n",
+        '    should_fix = bool(fix_even_unparsable) or result.count_tmp_prs_errors()[0] == 0\n    if should_fix and result.num_violations(types=SQLLintError, fixable=True) > 0:\n        sql = result.paths[0].files[0].fix_string()[0]\n    return sql\n',
+        "QUIET", None, 'flag computed as `feu or count()[0] == 0` (short-circuit keeps the call conditional)',
+    ),
+    Variant(
+        'quiet-api-flag-then-early-return', API,
+        "    should_fix = True\n    if not fix_even_unparsable:\n        # If fix_even_unparsable wasn't set, check for templating or parse\n        # errors and suppress fixing if there were any. NOTE: As on the\n        # command line, this includes errors which have been suppressed\n        # (e.g. by `noqa`), because we can't guarantee the fixes are valid.\n        total_errors, _ = result.count_tmp_prs_errors()\n        if total_errors > 0:\n            should_fix = False\n    # NOTE: As for stdin on the command line, only ask for the fixed string if\n    # there is something to fix. A file which was skipped (e.g. for being over\n    # the configured size limit) has no tree or templated file to fix.\n    if should_fix and result.num_violations(types=SQLLintError, fixable=True) > 0:\n        sql = result.paths[0].files[0].fix_string()[0]\n    return sql\n",
+        '    should_fix = True\n    if not fix_even_unparsable:\n        total_errors, _ = result.count_tmp_prs_errors()\n        if total_errors:\n            should_fix = False\n    if not should_fix:\n        return sql\n    if result.num_violations(types=SQLLintError, fixable=True) > 0:\n        sql = result.paths[0].files[0].fix_string()[0]\n    return sql\n',
+        "QUIET", None, 'truthiness instead of > 0; flag tested by an early return',
+    ),
+    Variant(
+        'quiet-stdin-fixable-test-in-boolean-local', CLI,
+        '    if result.num_violations(types=SQLLintError, fixable=True) > 0:\n        stdout = result.paths[0].files[0].fix_string()[0]\n    else:\n        stdout = stdin\n',
+        '    has_fixable = result.num_violations(types=SQLLintError, fixable=True) > 0\n    if has_fixable:\n        stdout = result.paths[0].files[0].fix_string()[0]\n    else:\n        stdout = stdin\n',
+        "QUIET", None, 'fixable test held in a boolean local',
+    ),
+    Variant(
+        'quiet-stdin-conditional-expression', CLI,
+        '    if result.num_violations(types=SQLLintError, fixable=True) > 0:\n        stdout = result.paths[0].files[0].fix_string()[0]\n    else:\n        stdout = stdin\n',
+        '    stdout = (\n        result.paths[0].files[0].fix_string()[0]\n        if result.num_violations(types=SQLLintError, fixable=True) > 0\n        else stdin\n    )\n',
+        "QUIET", None, 'if/else as a conditional expression',
+    ),
+    Variant(
+        'quiet-stdin-default-then-override', CLI,
+        '    if result.num_violations(types=SQLLintError, fixable=True) > 0:\n        stdout = result.paths[0].files[0].fix_string()[0]\n    else:\n        stdout = stdin\n',
+        '    stdout = stdin\n    if result.num_violations(types=SQLLintError, fixable=True) != 0:\n        stdout = result.paths[0].files[0].fix_string()[0]\n',
+        "QUIET", None, 'default first, overridden under the test; != 0 instead of > 0',
+    ),
+    Variant(
+        'quiet-lint-paths-gate-if-elif', LINTER,
+        '                    if fix_even_unparsable or num_tmp_prs_errors == 0:\n                        linted_file.persist_tree(\n                            suffix=fixed_file_suffix, formatter=self.formatter\n                        )\n',
+        '                    if fix_even_unparsable:\n                        linted_file.persist_tree(\n                            suffix=fixed_file_suffix, formatter=self.formatter\n                        )\n                    elif num_tmp_prs_errors == 0:\n                        linted_file.persist_tree(\n                            suffix=fixed_file_suffix, formatter=self.formatter\n                        )\n',
+        "QUIET", None, '`or` split into if/elif with the same action',
+    ),
+    Variant(
+        'quiet-lint-paths-gate-de-morgan', LINTER,
+        '                    if fix_even_unparsable or num_tmp_prs_errors == 0:\n                        linted_file.persist_tree(\n                            suffix=fixed_file_suffix, formatter=self.formatter\n                        )\n',
+        '                    if not (num_tmp_prs_errors > 0 and not fix_even_unparsable):\n                        linted_file.persist_tree(\n                            suffix=fixed_file_suffix, formatter=self.formatter\n                        )\n',
+        "QUIET", None, 'De Morgan on the gate',
+    ),
+    Variant(
+        'quiet-lint-paths-count-inlined', LINTER,
+        '                    num_tmp_prs_errors = linted_file.num_violations(\n                        types=TMP_PRS_ERROR_TYPES,\n                        filter_ignore=False,\n                        filter_warning=False,\n                    )\n                    if fix_even_unparsable or num_tmp_prs_errors == 0:\n',
+        '                    if fix_even_unparsable or not linted_file.num_violations(\n                        types=TMP_PRS_ERROR_TYPES,\n                        filter_ignore=False,\n                        filter_warning=False,\n                    ):\n',
+        "QUIET", None, 'count inlined into the gate, `not n` for `n == 0`',
+    ),
+    Variant(
+        'quiet-handle-unparsable-discard-before-count', CLI,
+        '    total_errors, num_filtered_errors = linting_result.count_tmp_prs_errors()\n    linting_result.discard_fixes_for_lint_errors_in_files_with_tmp_or_prs_errors()\n',
+        '    linting_result.discard_fixes_for_lint_errors_in_files_with_tmp_or_prs_errors()\n    total_errors, num_filtered_errors = linting_result.count_tmp_prs_errors()\n',
+        "QUIET", None, 'two independent statements reordered',
+    ),
+    Variant(
+        'quiet-discard-map-lookup-through-local', LDIR,
+        '            for linted_file in self.files:\n                if self._unfiltered_tmp_prs_errors_map[linted_file.path]:\n                    for violation in linted_file.violations:\n                        if isinstance(violation, SQLLintError):\n                            violation.fixes = []\n',
+        '            for linted_file in self.files:\n                file_tmp_prs = self._unfiltered_tmp_prs_errors_map[linted_file.path]\n                if file_tmp_prs:\n                    for violation in linted_file.violations:\n                        if isinstance(violation, SQLLintError):\n                            violation.fixes = []\n',
+        "QUIET", None, 'per-file count read into a local',
+    ),
+    Variant(
+        'quiet-discard-compare-and-continue', LDIR,
+        '            for linted_file in self.files:\n                if self._unfiltered_tmp_prs_errors_map[linted_file.path]:\n                    for violation in linted_file.violations:\n                        if isinstance(violation, SQLLintError):\n                            violation.fixes = []\n',
+        '            for linted_file in self.files:\n                if self._unfiltered_tmp_prs_errors_map[linted_file.path] > 0:\n                    for violation in linted_file.violations:\n                        if not isinstance(violation, SQLLintError):\n                            continue\n                        violation.fixes = []\n',
+        "QUIET", None, '> 0 instead of truthiness; early continue for non-lint errors',
+    ),
+    Variant(
+        'quiet-discard-early-continue-per-file', LDIR,
+        '            for linted_file in self.files:\n                if self._unfiltered_tmp_prs_errors_map[linted_file.path]:\n                    for violation in linted_file.violations:\n                        if isinstance(violation, SQLLintError):\n                            violation.fixes = []\n',
+        '            for linted_file in self.files:\n                if not self._unfiltered_tmp_prs_errors_map[linted_file.path]:\n                    continue\n                for violation in linted_file.violations:\n                    if isinstance(violation, SQLLintError):\n                        violation.fixes = []\n',
+        "QUIET", None, 'early continue for clean files',
+    ),
+    Variant(
+        'quiet-discard-lint-errors-filtered-first', LDIR,
+        '            for linted_file in self.files:\n                if self._unfiltered_tmp_prs_errors_map[linted_file.path]:\n                    for violation in linted_file.violations:\n                        if isinstance(violation, SQLLintError):\n                            violation.fixes = []\n',
+        '            for linted_file in self.files:\n                if self._unfiltered_tmp_prs_errors_map[linted_file.path]:\n                    lint_errors = [v for v in linted_file.violations if isinstance(v, SQLLintError)]\n                    for violation in lint_errors:\n                        violation.fixes = []\n',
+        "QUIET", None, 'lint errors selected by a comprehension, then cleared',
+    ),
+    Variant(
+        'quiet-add-map-key-through-local', LDIR,
+        '        self._unfiltered_tmp_prs_errors_map[file.path] = _unfiltered_tmp_prs_errors\n',
+        '        file_key = file.path\n        self._unfiltered_tmp_prs_errors_map[file_key] = _unfiltered_tmp_prs_errors\n',
+        "QUIET", None, 'map key through a local',
+    ),
+    Variant(
+        'quiet-loop-limit-clear-with-continue', LINTER,
+        '                    for violation in initial_linting_errors:\n                        if isinstance(violation, SQLLintError):\n                            violation.fixes = []\n',
+        '                    for violation in initial_linting_errors:\n                        if not isinstance(violation, SQLLintError):\n                            continue\n                        violation.fixes = []\n',
+        "QUIET", None, 'early continue in the clearing loop',
+    ),
+    Variant(
+        'quiet-loop-limit-result-through-local', LINTER,
+        '                    return save_tree, initial_linting_errors, ignore_mask, rule_timings\n',
+        '                    rolled_back = (save_tree, initial_linting_errors, ignore_mask, rule_timings)\n                    return rolled_back\n',
+        "QUIET", None, 'rollback result through a local',
+    ),
+    Variant(
+        'quiet-persist-tree-count-through-local', LFILE,
+        '        if self.num_violations(fixable=True, filter_warning=False) > 0:\n            write_buff, success = self.fix_string()\n',
+        '        n_fixable = self.num_violations(fixable=True, filter_warning=False)\n        if n_fixable:\n            write_buff, success = self.fix_string()\n',
+        "QUIET", None, 'fixable count through a local, truthiness',
+    ),
+    Variant("quiet-loop-limit-saved-tree-renamed", LINTER, "save_tree", "tree_before_fixes", "QUIET", None, "saved-tree local renamed everywhere", 2),
+    # breaking twins of the spellings accepted above
+    Variant(
+        'stdin-conditional-expression-on-any-lint-error', CLI,
+        '    if result.num_violations(types=SQLLintError, fixable=True) > 0:\n        stdout = result.paths[0].files[0].fix_string()[0]\n    else:\n        stdout = stdin\n',
+        '    stdout = (\n        result.paths[0].files[0].fix_string()[0]\n        if result.num_violations(types=SQLLintError) > 0\n        else stdin\n    )\n',
+        'R18a', '_stdin_fix', 'breaking twin of the conditional-expression spelling: not the fixable count',
+    ),
+    Variant(
+        'api-flag-from-bool-of-another-value', API,
+        '    should_fix = True\n    if not fix_even_unparsable:\n',
+        '    should_fix = bool(sql) or result.count_tmp_prs_errors()[0] == 0\n    if False:\n',
+        'R18a', 'fix', 'breaking twin of the bool(..) spelling: the flag is not fix_even_unparsable',
+    ),
+    Variant(
+        'discard-local-holds-filtered-count', LDIR,
+        '            for linted_file in self.files:\n                if self._unfiltered_tmp_prs_errors_map[linted_file.path]:\n                    for violation in linted_file.violations:\n                        if isinstance(violation, SQLLintError):\n                            violation.fixes = []\n',
+        '            for linted_file in self.files:\n                file_tmp_prs = linted_file.num_violations(types=TMP_PRS_ERROR_TYPES)\n                if file_tmp_prs:\n                    for violation in linted_file.violations:\n                        if isinstance(violation, SQLLintError):\n                            violation.fixes = []\n',
+        'R18c', None, 'breaking twin of the count-in-a-local spelling',
+    ),
+    Variant(
+        'discard-comprehension-skips-warnings', LDIR,
+        '            for linted_file in self.files:\n                if self._unfiltered_tmp_prs_errors_map[linted_file.path]:\n                    for violation in linted_file.violations:\n                        if isinstance(violation, SQLLintError):\n                            violation.fixes = []\n',
+        '            for linted_file in self.files:\n                if self._unfiltered_tmp_prs_errors_map[linted_file.path]:\n                    lint_errors = [v for v in linted_file.violations if isinstance(v, SQLLintError) and not v.warning]\n                    for violation in lint_errors:\n                        violation.fixes = []\n',
+        'R18c', None, 'breaking twin of the filtered-comprehension spelling',
+    ),
+    Variant(
+        'add-map-key-local-is-basename', LDIR,
+        '        self._unfiltered_tmp_prs_errors_map[file.path] = _unfiltered_tmp_prs_errors\n',
+        '        file_key = os.path.basename(file.path)\n        self._unfiltered_tmp_prs_errors_map[file_key] = _unfiltered_tmp_prs_errors\n',
+        'R18c', None, 'breaking twin of the key-in-a-local spelling',
+    ),
+    Variant(
+        'loop-limit-result-local-holds-current-tree', LINTER,
+        '                    return save_tree, initial_linting_errors, ignore_mask, rule_timings\n',
+        '                    rolled_back = (tree, initial_linting_errors, ignore_mask, rule_timings)\n                    return rolled_back\n',
+        'R18b', 'lint_fix_parsed', 'breaking twin of the result-in-a-local spelling',
     ),
     Variant("lint_paths-gate-dropped", LINTER,
             "                    if fix_even_unparsable or num_tmp_prs_errors == 0:\n                        linted_file.persist_tree(",
